@@ -108,7 +108,14 @@ def obligations(ctx, tier):
             # ---- P-: forbidden classes
             for fid, di in sorted(F.by_fid.items()):
                 d = F.defs[di]
-                if d.get("self_head") != A or d.get("trait") is not None or not d.get("public") or d.get("kind") != "AssocFn" or di not in F.bodies:
+                trt = d.get("trait")
+                if d.get("self_head") != A or d.get("kind") != "AssocFn" or di not in F.bodies:
+                    continue
+                # inherent public methods, and the num-traits entry points of the same names
+                if trt is None:
+                    if not d.get("public"):
+                        continue
+                elif not trt.startswith("num_traits::"):
                     continue
                 name = d["name"]
                 mm = re.match(r"(checked|wrapping|overflowing|saturating)_", name)
